@@ -98,7 +98,8 @@ def render(f, atoms, style, rng=None, parent=0, side=None):
         # left-assoc chains need no brackets; a right operand of the same operator is bracketed to keep the tree shape
         need = PREC[op] < parent or (PREC[op] == parent and side == "r")
     if parent == PREC["not"] and op != "a":
-        need = True
+        # `not not A` is legal without brackets: bare in round style, bracketed in curly style, either when random
+        need = not (op == "not" and (rng.random() < 0.5 if rng else style == "("))
     if need or (rng and op != "a" and rng.random() < 0.15) or (rng and op == "a" and rng.random() < 0.08):
         s = op_open + s + op_close
     return s
